@@ -80,13 +80,13 @@ INVERT = "that A(K') is invertible for each of the 477 K' (consistency of the en
 PROPS.update({
     "C01": {
         "thm_modules": ["Rq.Thm.C01", "Rq.Thm.C02"],
-        "engines": [("decblk", "release"), ("decblk", "debug"), ("decobj", "release"), ("decobj", "debug")],
+        "engines": [("decblk", "release"), ("decblk", "debug"), ("decobj", "release"), ("decobj", "debug"), ("fastpath", "release")],
         "modelled": [SOLVER],
         "assumptions": [INVERT, "packets are genuine packets of one object (an erasure code makes no promise on corrupted payloads)"],
     },
     "C02": {
         "thm_modules": ["Rq.Thm.C02"],
-        "engines": [("decblk", "release"), ("decblk", "debug"), ("overhead", "release")],
+        "engines": [("decblk", "release"), ("decblk", "debug"), ("overhead", "release"), ("fastpath", "release"), ("fastpath", "debug")],
         "modelled": [SOLVER],
         "assumptions": ["the counter generator_too_weak_singular_sets is raised when fewer than 10 certified singular sets were seen in a run"],
     },
@@ -103,8 +103,8 @@ PROPS.update({
         "assumptions": [RFC_TABLES, INVERT, "the Spec (entry-wise matrix, MT x GAMMA as a naive sum, Enc/Tuple/Rand/Deg) is written from RFC 6330 5.3; no other RaptorQ implementation is available offline to cross-check it"],
     },
     "C06": {
-        "thm_modules": ["Rq.Thm.C06", "Rq.Thm.C06b"],
-        "engines": [("inter", "release"), ("plan", "release"), ("plan", "debug")],
+        "thm_modules": ["Rq.Thm.C06", "Rq.Thm.C06b", "Rq.Thm.Tables"],
+        "engines": [("inter", "release"), ("plan", "release"), ("plan", "debug"), ("tables", "release")],
         "modelled": [SOLVER],
         "assumptions": [INVERT, "plan certificates (identity-block replay) are evaluated by the compiled model driver for K <= 130 (quick) / 400 (thorough): compiled Lean evaluation, not a kernel proof; all 477 K' are covered by checking Rust's intermediate symbols against every row of the Spec system"],
     },
@@ -126,7 +126,7 @@ PROPS.update({
     },
     "C07": {
         "thm_modules": ["Rq.Thm.C07"],
-        "engines": [("configs", "release"), ("configs", "debug")],
+        "engines": [("configs", "release"), ("configs", "debug"), ("kernels", "release")],
         "nostd_workload": True,
         "modelled": [SOLVER, "optimised vs debug-assertion code generation, std vs no_std, and the release-only errata-11 column skipping are not modelled: covered by the correspondence run only (partial)"],
         "assumptions": ["four builds (std/no_std x checked/unchecked) run one public-API workload and are compared textually; inside the std harness: dispatch ceiling x sparse threshold x plan mode grid against the canonical result, which is tied to the model"],
